@@ -75,6 +75,7 @@ class World(object):
         self.ns = {}
         exec(compile(self.src, "<prog>", "exec"), self.ns)
         self.vsc = self.ns["vsc"]
+        self.ns["_now"] = lambda: sum(len(i.trace) for i in M.MirrorBoolector.instances)
         self.W = types.SimpleNamespace()
         self.shadow = {"k": "o", "cls": None, "rand": False, "rand_mode": False, "fields": {}, "cmode": {}}
         for w in spec["world"]:
@@ -361,6 +362,10 @@ def build_ref(world, op, perturb=None, softs=None):
     for rp in roots:
         P.mark_used_rand(P.get_node(world.shadow, rp), True, 0)
     env = R.Env(world.prog, world.shadow, (), {}, perturb)
+    # values that pre_randomize assigns (on objects that are random in the call) are what the solver must see
+    pre_sets = {}
+    for rp in roots:
+        _apply_pre_sets(world, P.get_node(world.shadow, rp), rp, pre_sets)
     acc = []
     for rp in roots:
         n = P.get_node(world.shadow, rp)
@@ -371,7 +376,23 @@ def build_ref(world, op, perturb=None, softs=None):
         acc.append(R.stmts_formula(stmts, env.child(owner=owner), softs))
     refc = z3.And(*acc) if acc else z3.BoolVal(True)
     env.refc = refc
+    env.pre_sets = pre_sets
     return z3.And(refc, R.type_domain(env)), env
+
+
+def _apply_pre_sets(world, node, path, pre_sets):
+    if node["k"] == "o" and node.get("used"):
+        hook = P.cls_spec(world.prog, node["cls"]).get("pre_randomize") if node.get("cls") else None
+        for act in hook or []:
+            if act[0] == "set":
+                tgt = P.get_node(node, tuple(act[1]))
+                tgt["val"] = wrapv(act[2], tgt["w"], tgt["signed"])
+                pre_sets[tuple(path) + tuple(act[1])] = tgt["val"]
+        for fn, ch in node["fields"].items():
+            _apply_pre_sets(world, ch, tuple(path) + (fn,), pre_sets)
+    elif node["k"] == "l":
+        for i, ch in enumerate(node["elems"]):
+            _apply_pre_sets(world, ch, tuple(path) + (i,), pre_sets)
 
 
 def extract_hard(instances, fm_path, env):
@@ -431,6 +452,58 @@ def extract_hard(instances, fm_path, env):
     return A, unmapped, facts, subs
 
 
+def idle_findings(world):
+    """C16: shared construction state idle, no temporary constraint rewrites, no solver handles left in the models"""
+    out = []
+    from vsc.impl import ctor, expr_mode
+    from vsc.model.constraint_override_model import ConstraintOverrideModel
+    for nm, st in (("constraint_scope_stack", ctor.constraint_scope_stack), ("expr_l", ctor.expr_l), ("srcinfo_mode_s", ctor.srcinfo_mode_s),
+                   ("foreach_arr_s", ctor.foreach_arr_s), ("_expr_mode", expr_mode._expr_mode), ("_raw_mode", expr_mode._raw_mode)):
+        if len(st) != 0:
+            out.append("shared stack %s holds %d leftover entries" % (nm, len(st)))
+            del st[:]          # restore, so that one leak is reported once and later ops are judged on their own
+
+    def walk_c(c, where, seen):
+        if id(c) in seen:
+            return
+        seen.add(id(c))
+        if isinstance(c, ConstraintOverrideModel):
+            out.append("leftover ConstraintOverrideModel in %s" % where)
+        for attr in ("constraint_l",):
+            for ch in getattr(c, attr, None) or []:
+                walk_c(ch, where, seen)
+        for attr in ("true_c", "false_c", "new_constraint", "orig_constraint"):
+            ch = getattr(c, attr, None)
+            if ch is not None and hasattr(ch, "accept"):
+                walk_c(ch, where, seen)
+
+    def walk_f(fm, where, seen):
+        if id(fm) in seen:
+            return
+        seen.add(id(fm))
+        if getattr(fm, "var", None) is not None:
+            out.append("field %s still holds a solver node" % where)
+        if getattr(fm, "is_used_rand", False):
+            out.append("field %s is still marked as used-random" % where)
+        sz = getattr(fm, "size", None)
+        if sz is not None and hasattr(sz, "var"):
+            walk_f(sz, where + ".size", seen)
+        for c in getattr(fm, "constraint_model_l", None) or []:
+            walk_c(c, where + ":" + str(getattr(c, "name", "?")), set())
+        for c in getattr(fm, "constraint_dynamic_model_l", None) or []:
+            walk_c(c, where + ":" + str(getattr(c, "name", "?")), set())
+        for ch in getattr(fm, "field_l", None) or []:
+            walk_f(ch, where + "." + str(getattr(ch, "name", "?")), seen)
+    for name in world.shadow["fields"]:
+        try:
+            fm = getattr(world.W, name).get_model()
+        except Exception as e:
+            out.append("get_model() of %s raised %s" % (name, type(e).__name__))
+            continue
+        walk_f(fm, name, set())
+    return out
+
+
 def _quiet():
     return contextlib.redirect_stdout(io.StringIO())
 
@@ -456,7 +529,18 @@ def run_program(spec):
         return out
     out["src"] = world.src
     for oi, op in enumerate(spec["ops"]):
-        if op[0] not in ("randomize", "randomize_with", "vsc_randomize", "vsc_randomize_with"):
+        if op[0] == "new_fault":
+            # constructing an object whose constraint body / constructor raises in user code
+            try:
+                with _quiet():
+                    world.ns[op[1][2]]()
+                out["findings"].append({"kind": "harness", "what": "new_fault: construction of %s did not raise" % op[1][2], "op": oi})
+            except Exception as e:
+                if type(e).__name__ != "UserFault":
+                    out["findings"].append({"kind": "other_exception", "what": "construction raised %s: %s instead of the user's exception" % (
+                        type(e).__name__, str(e)[:200]), "op": oi, "call": op})
+            out["calls"].append({"op": oi, "kind": "new_fault"})
+        elif op[0] not in ("randomize", "randomize_with", "vsc_randomize", "vsc_randomize_with"):
             try:
                 with _quiet():
                     apply_simple_op(world, op)
@@ -464,12 +548,17 @@ def run_program(spec):
                 out["error"] = "op %d %s: %s: %s" % (oi, op[0], type(e).__name__, e)
                 out["trace"] = traceback.format_exc()[-2000:]
                 return out
-            continue
-        rec = decide_call(world, spec, oi, op, q, opts, SolveFailure)
-        out["calls"].append(rec["summary"])
-        out["findings"].extend(rec["findings"])
-        if rec.get("fatal"):
-            break
+            if not opts.get("check_idle"):
+                continue
+        else:
+            rec = decide_call(world, spec, oi, op, q, opts, SolveFailure)
+            out["calls"].append(rec["summary"])
+            out["findings"].extend(rec["findings"])
+            if rec.get("fatal"):
+                break
+        if opts.get("check_idle"):
+            for what in idle_findings(world):
+                out["findings"].append({"kind": "not_idle", "what": "after op %d %s: %s" % (oi, op[0], what), "op": oi, "call": op})
     out["q"] = q.n
     out["solver_s"] = q.t
     out["mirror"] = dict(M.MirrorBoolector.stats)
@@ -489,9 +578,13 @@ def decide_call(world, spec, oi, op, q, opts, SolveFailure):
     except Exception as e:
         return {"summary": {"op": oi, "error": "refsem: %s: %s" % (type(e).__name__, e)}, "findings": [
             {"kind": "harness", "what": "reference semantics failed: %s %s" % (e, traceback.format_exc()[-1500:])}], "fatal": True}
+    for pth, v in getattr(env, "pre_sets", {}).items():
+        before[pth] = v
     M.MirrorBoolector.reset()
     _state["node2fm"].clear()
     _state["calls"].clear()
+    if "EVENTS" in world.ns:
+        del world.ns["EVENTS"][:]
     with _quiet():
         exc = _do_call(world, op)
     instances = list(M.MirrorBoolector.instances)
@@ -511,7 +604,9 @@ def decide_call(world, spec, oi, op, q, opts, SolveFailure):
         findings.append(d)
 
     # ---------------- exception behaviour (C02)
-    if exc is not None and not isinstance(exc, SolveFailure):
+    if exc is not None and type(exc).__name__ == "UserFault":
+        summary["user_fault"] = True          # raised by user code: propagates legitimately
+    elif exc is not None and not isinstance(exc, SolveFailure):
         finding("other_exception", "call raised %s: %s" % (type(exc).__name__, str(exc)[:300]), ref_sat=r3,
                 tb="".join(traceback.format_exception(type(exc), exc, exc.__traceback__))[-1500:])
     elif exc is not None:
@@ -647,9 +742,24 @@ def replay_finding(spec, finding):
             with _quiet():
                 if is_call:
                     _do_call(world, op)
+                elif op[0] == "new_fault":
+                    try:
+                        world.ns[op[1][2]]()
+                    except Exception:
+                        pass
                 else:
                     apply_simple_op(world, op)
             continue
+        if op[0] == "new_fault":
+            try:
+                with _quiet():
+                    world.ns[op[1][2]]()
+            except Exception as e:
+                if type(e).__name__ != "UserFault":
+                    return True, "construction raised %s: %s" % (type(e).__name__, str(e)[:200])
+            return False, "construction raised the user's exception only"
+        if not is_call:
+            return False, "finding attached to a non-call operation"
         # the call under test
         with _quiet():
             world.sync_shadow_values()
